@@ -45,6 +45,20 @@ void m_siv_open(int ks, uint8_t *m, uint8_t tag[8], const uint8_t *body, size_t 
 void m_siv_tag(int ks, uint8_t tag[8], const uint8_t *m, size_t mlen,
                const uint8_t *ad, size_t adlen, const uint8_t *npub, const uint8_t *k);
 
+/* Streaming forms of the above for multi-GiB messages (every chunk but the last a multiple of 4 bytes):
+ *   AEAD:  begin(fb 0x10, ad) ; aead_encrypt(chunk)* ; tag
+ *   SIV :  begin(fb 0x90, ad) ; absorb_msg(chunk)* ; tag     then   begin(fb 0xB0, npub[0..3]||tag, ad = NULL/nonzero adlen
+ *          is not used: pass ad = NULL, adlen = 1 to skip AD) ; keystream_xor(chunk)* */
+typedef struct { m_state_t s; int ks; const uint8_t *k; } m_stream_t;
+void m_stream_begin(m_stream_t *st, int ks, const uint8_t *k, const uint8_t *npub, unsigned setup_fb, const uint8_t *ad, size_t adlen);
+void m_stream_aead_encrypt(m_stream_t *st, uint8_t *c, const uint8_t *m, size_t n);
+void m_stream_absorb_msg(m_stream_t *st, const uint8_t *m, size_t n);
+void m_stream_keystream_xor(m_stream_t *st, uint8_t *out, const uint8_t *in, size_t n);
+void m_stream_tag(m_stream_t *st, uint8_t tag[8]);
+/* Switches m_perm to a 32-steps-per-iteration form after comparing it with the literal bit-serial form on 600 random
+ * (state, key, step count) triples; returns -1 (and stays literal) if they ever differ.  Only the multi-GiB cases use it. */
+int m_use_fast_perm(int on);
+
 /* Hash (MDPH over TinyJAMBU-256, 2560 steps). */
 typedef struct { uint8_t L[16], R[16], buf[16]; unsigned n; } m_hash_t;
 void m_hash_init(m_hash_t *h);
